@@ -145,6 +145,38 @@ def eval_join_dispatch(ctx, ps, join_type):
     return outcome
 
 
+def interpret_join(ctx, cls, ps, join_type):
+    """prepare_select interpreted on `SELECT * FROM a <join_type> b ON c` with a generative stand-in for the SQLAlchemy select: which join method is
+    called with which flags, or which exception ends the rendering"""
+    from ..interp import Interp, Obj, Raised, Env
+    methods = {'SqlalchemyRender': {m.name: m for m in cls.body if isinstance(m, ast.FunctionDef)}}
+    query = Obj('SaSelect', _fluent=True, _log=[])
+    a, b = Obj('Identifier', parts=['a'], alias=None), Obj('Identifier', parts=['b'], alias=None)
+    cond = Obj('BinaryOperation', op='=', args=[Obj('Identifier', parts=['a', 'x'], alias=None), Obj('Identifier', parts=['b', 'x'], alias=None)], alias=None)
+    join = Obj('Join', left=a, right=b, join_type=join_type, condition=cond, implicit=False, alias=None)
+    node = Obj('Select', targets=[Obj('Star')], distinct=False, from_table=join, where=None, group_by=None, having=None, order_by=None, limit=None, offset=None,
+               cte=None, mode=None, using=None, alias=None, parentheses=False)
+    stubs = {'sa.select': lambda it, *c: query, 'self.to_expression': lambda it, t: ('expr', id(t)), 'self.to_table': lambda it, t: ('table', t.parts[-1]),
+             'sa.text': lambda it, t: ('text', t), 'self.get_alias': lambda it, x: x}
+    it = Interp({'Join': set(), 'Select': set(), 'Identifier': set(), 'Union': set(), 'Intersect': set(), 'Except': set(), 'NativeQuery': set()}, stubs, methods=methods)
+    out = {}
+    try:
+        it.call_function(ps, [Obj('SqlalchemyRender'), node], {}, Env())
+    except Raised as r:
+        out['raises'] = r.exc_name
+        return out
+    joins = [(n, a_, k) for n, a_, k in query.attrs['_log'] if n in ('join', 'outerjoin', 'join_from', 'outerjoin_from')]
+    if len(joins) != 1:
+        out['method'] = f'{len(joins)} join calls'
+        out['full'] = None
+        return out
+    n, a_, k = joins[0]
+    out['method'] = 'outerjoin' if (n.startswith('outerjoin') or k.get('isouter')) else 'join'
+    out['full'] = bool(k.get('full', False))
+    out['on'] = a_[1] if len(a_) > 1 else k.get('onclause')
+    return out
+
+
 def run(ctx):
     ctx.explanation = (
         'Exhaustiveness / table agreement between the grammars\' finite vocabularies and the renderer\'s dispatch code: '
@@ -173,13 +205,7 @@ def run(ctx):
     for jt in vocab:
         ctx.need(jt in JOIN_REF, f'join kind {jt!r} produced by the grammar has no reference entry')
         ref = JOIN_REF[jt]
-        try:
-            got = eval_join_dispatch(ctx, ps, jt)
-        except AnalysisError as e:
-            if 'free name' in str(e):
-                got = eval_join_dispatch_with_globals(ctx, tree, ps, jt)
-            else:
-                raise
+        got = interpret_join(ctx, cls, ps, jt)
         if ref is None:
             ok = got.get('raises') == 'NotImplementedError'
             ctx.ob('C06.join-kind', jt, ok,
